@@ -230,6 +230,11 @@ def run(ctx):
         for o in orders:
             jobs.append({"mode": "mix", "tokA": ta, "tokB": tb, "nb": 3, "order": json.loads(o)})
             nmix += 1
+    # ... and senders that keep their own, larger block size (64) against a receiver whose maximum is 16: a foreign peer that
+    # does not adopt the size the receiver answers with - 192-byte bodies in 3 blocks, every interleaving
+    for o in orders:
+        jobs.append({"mode": "mix", "tokA": [42], "tokB": [43], "nb": 12, "order": json.loads(o), "sb": 64})
+        nmix += 1
     ctx.cov["layer_two_transfer_interleavings"] = nmix
     ctx.cov["directed_retry_after_abandon_schedules"] = nretry
     if not jobs:
